@@ -98,12 +98,12 @@ def c13(tier, seed):
             for k in (['L' * n, ('RW' * 2)[:n]] if n < 4 else ['L' * n]):
                 tj.append([enc, k, ''.join(str(i) for i in range(n)), 'M', 2 if n < 3 else 3])
     gs.append(grp('pure/trees', 'VH_pureTree', tj, merge=MS, cost=5, bound='valid expressions of <= %d leaves, allowed lists of 2-3 symbolic entries' % (3 if q else 4),
-                  symbolic='allowed entries', asserts=['args-unchanged', 'same-result-twice', 'no-output']))
+                  symbolic='allowed entries', asserts=['args-unchanged', 'same-result-twice', 'same-result-after-related-calls', 'no-output']))
     gs.append(grp('pure/pool', 'VH_purePool', [[n] for n in range(0, 3 if q else 4)], merge=['parse', 'inLicenseList', 'getLicenseRange', 'isCompatible'], cost=20,
                   bound='expression and list elements from the 27-string pool, lists of <= %d' % (2 if q else 3), symbolic='expression and list elements (choice variables)',
-                  asserts=['args-unchanged', 'same-result-twice', 'no-output']))
+                  asserts=['args-unchanged', 'same-result-twice', 'same-result-after-related-calls', 'no-output']))
     gs.append(grp('pure/bytes', 'VH_pureBytes', [[l] for l in range(0, 3 if q else 4)], cost=20, bound='byte strings of length <= %d' % (2 if q else 3),
-                  symbolic='all bytes', asserts=['args-unchanged', 'same-result-twice', 'no-output']))
+                  symbolic='all bytes', asserts=['args-unchanged', 'same-result-twice', 'same-result-after-related-calls', 'no-output']))
     return gs
 
 
